@@ -1,0 +1,89 @@
+// SPDX-License-Identifier: MIT OR Apache-2.0
+
+//! Verification hook (compiled only with `--cfg p2panda_p2panda_verif`): schedule points for the
+//! task tracker and public names for the crate-private `TaskTracker`, `Task` and `Pipeline`, so
+//! that an external harness can replay model schedules on the real code. Adds visibility and
+//! (inert unless switched on by the harness thread) schedule points only, no behaviour.
+
+use std::cell::Cell;
+use std::future::Future;
+use std::pin::Pin;
+use std::task::{Context, Poll};
+
+use p2panda_core::{Operation, PruneFlag, Topic};
+use p2panda_store::SqliteStore;
+
+use crate::operation::LogId;
+use crate::processor::Event;
+
+/// The real task tracker (`processor/tasks.rs`).
+pub type TaskTracker<T, ID> = crate::processor::TaskTracker<T, ID>;
+
+/// The real task handle (`processor/tasks.rs`).
+pub type Task<T, ID> = crate::processor::Task<T, ID>;
+
+/// The real processing pipeline (`processor/pipeline.rs`) over the event type its own test uses.
+pub type Pipeline = crate::processor::Pipeline<LogId, (), Topic>;
+
+/// Event type of [`Pipeline`].
+pub type PipelineEvent = Event<LogId, (), Topic>;
+
+/// `Pipeline::new` over a SQLite store with a fresh task tracker (as `Node` does).
+pub fn new_pipeline(store: SqliteStore) -> Pipeline {
+    Pipeline::new(store, crate::processor::TaskTracker::new())
+}
+
+/// `Event::new` (crate-private) for an operation of `topic`, no prune flag.
+pub fn new_event(operation: Operation<()>, topic: Topic) -> PipelineEvent {
+    Event::new(
+        operation,
+        LogId::from_topic(topic),
+        topic,
+        PruneFlag::default(),
+    )
+}
+
+thread_local! {
+    static ENABLED: Cell<bool> = const { Cell::new(false) };
+    static LAST: Cell<Option<&'static str>> = const { Cell::new(None) };
+}
+
+/// Switches the schedule points of the *calling thread* on or off (off by default: then every
+/// [`yield_point`] completes immediately and the code runs exactly as without the hook).
+pub fn enable_schedule_points(on: bool) {
+    ENABLED.with(|e| e.set(on));
+    LAST.with(|l| l.set(None));
+}
+
+/// Name of the schedule point the last polled future of this thread stopped at, if any.
+pub fn take_last_point() -> Option<&'static str> {
+    LAST.with(|l| l.take())
+}
+
+/// A named schedule point: when switched on, returns `Pending` exactly once (recording `name`),
+/// so that the harness, which polls the futures by hand, decides who runs next.
+pub fn yield_point(name: &'static str) -> YieldPoint {
+    YieldPoint {
+        name,
+        yielded: false,
+    }
+}
+
+pub struct YieldPoint {
+    name: &'static str,
+    yielded: bool,
+}
+
+impl Future for YieldPoint {
+    type Output = ();
+
+    fn poll(mut self: Pin<&mut Self>, cx: &mut Context<'_>) -> Poll<()> {
+        if self.yielded || !ENABLED.with(|e| e.get()) {
+            return Poll::Ready(());
+        }
+        self.yielded = true;
+        LAST.with(|l| l.set(Some(self.name)));
+        cx.waker().wake_by_ref();
+        Poll::Pending
+    }
+}
